@@ -514,14 +514,14 @@ impl SecureChunk {
             };
         }
 
-        // Initialize footer
+        // Initialize footer (only byte-aligned when `size` is not a multiple of 8)
         let footer_ptr = unsafe { raw_ptr.add(header_size + size) as *mut ChunkFooter };
         unsafe {
-            (*footer_ptr) = ChunkFooter {
+            footer_ptr.write_unaligned(ChunkFooter {
                 canary,
                 generation,
                 magic: CHUNK_FOOTER_MAGIC,
-            };
+            });
         }
 
         // Return pointer to data area (after header)
@@ -576,7 +576,7 @@ impl SecureChunk {
 
         // Validate footer
         let footer_ptr = unsafe { self.ptr.as_ptr().add(self.size) as *const ChunkFooter };
-        let footer = unsafe { &*footer_ptr };
+        let footer = unsafe { footer_ptr.read_unaligned() };
 
         if footer.magic != CHUNK_FOOTER_MAGIC {
             return Err(ZiporaError::invalid_data(&format!(
